@@ -136,7 +136,110 @@ def summarize_harness(res, harness_file_dir):
                 duration_s=res.get('duration_ms', 0) / 1000.0, raw_status=res.get('status'))
 
 
-def playback(xt_dir, hdir, harness, harness_file, timeout=900):
+
+def harness_stubs(harness_src, harness_fn):
+    """(target, stub_fn) pairs of the #[kani::stub(..)] attributes attached to `harness_fn`."""
+    lines = harness_src.split('\n')
+    out = []
+    for i, l in enumerate(lines):
+        if re.match(r'\s*fn\s+%s\s*\(' % re.escape(harness_fn), l):
+            k = i - 1
+            while k >= 0 and lines[k].strip().startswith('#['):
+                m = re.match(r'\s*#\[kani::stub\(\s*(.+?)\s*,\s*([\w:]+)\s*\)\]', lines[k])
+                if m:
+                    out.append((m.group(1).replace(' ', ''), m.group(2)))
+                k -= 1
+            break
+    return out
+
+
+def apply_local_stubs(xt_dir, hdir, harness_file, harness_fn, harness_modpath, harness_src_rel):
+    """`cargo kani playback` ignores #[kani::stub]; for stubs whose target is a free function of the xt crate
+    we apply them by rewriting the SCRATCH copy: the real function is renamed to <name>__verif_orig and a
+    forwarder with the same signature calls the stub.  Returns (applied, not_applied)."""
+    hsrc = open(os.path.join(hdir, harness_file)).read()
+    stubs = harness_stubs(hsrc, harness_fn)
+    applied, skipped = [], []
+    if not stubs:
+        return applied, skipped
+    # stubs and ghost statics must be reachable from the forwarders
+    for f in os.listdir(hdir):
+        if f.endswith('.rs'):
+            t = open(os.path.join(hdir, f)).read()
+            t = re.sub(r'(?m)^fn ', 'pub(crate) fn ', t)
+            t = re.sub(r'(?m)^static mut ', 'pub(crate) static mut ', t)
+            open(os.path.join(hdir, f), 'w').write(t)
+    for root, _, files in os.walk(os.path.join(xt_dir, 'src')):
+        for f in files:
+            if f.endswith('.rs'):
+                pth = os.path.join(root, f)
+                t = open(pth).read()
+                t2 = t.replace('#[cfg(kani)] #[path = "', '#[cfg(kani)] #[allow(dead_code)] #[path = "').replace('"] mod verif_kani;', '"] pub(crate) mod verif_kani;')
+                if t2 != t:
+                    open(pth, 'w').write(t2)
+    stub_path = 'crate::' + (harness_modpath + '::' if harness_modpath else '') + 'verif_kani::'
+    for target, stub_fn in stubs:
+        parts = target.split('::')
+        if target.startswith('crate::'):
+            mod_parts, name = parts[1:-1], parts[-1]
+            cands = [os.path.join('src', *mod_parts) + '.rs', os.path.join('src', *mod_parts, 'mod.rs')]
+        elif len(parts) == 1:
+            name, cands = parts[0], [harness_src_rel]
+        else:
+            skipped.append(target)
+            continue
+        done = False
+        for rel in cands:
+            pth = os.path.join(xt_dir, rel)
+            if not os.path.exists(pth):
+                continue
+            src = open(pth).read()
+            try:
+                it = rs.find_item(src, 'fn', name)
+            except ScanError:
+                continue
+            text = it['text']
+            msk = rs.mask(text)
+            m = re.search(r'\bfn\s+%s\b' % re.escape(name), msk)
+            popen = msk.index('(', m.end())
+            pclose = rs.match_brace(msk, popen)
+            params = text[popen + 1:pclose]
+            args, depth, cur = [], 0, ''
+            for ch in params:
+                if ch in '<([{':
+                    depth += 1
+                elif ch in '>)]}':
+                    depth -= 1
+                if ch == ',' and depth == 0:
+                    args.append(cur); cur = ''
+                else:
+                    cur += ch
+            if cur.strip():
+                args.append(cur)
+            names = []
+            for a in args:
+                pat = a.split(':', 1)[0].strip()
+                pat = re.sub(r'^(mut|ref)\s+', '', pat)
+                if not re.fullmatch(r'\w+', pat):
+                    names = None
+                    break
+                names.append(pat)
+            if names is None:
+                break
+            sig = text[:it['body_open']]
+            fwd = sig + '{ ' + stub_path + stub_fn + '(' + ', '.join(names) + ') }\n'
+            orig = text[:m.start()] + re.sub(r'\bfn\s+%s\b' % re.escape(name), 'fn %s__verif_orig' % name, text[m.start():], count=1)
+            src = src[:it['start']] + '#[allow(dead_code)]\n' + orig + '\n' + fwd + src[it['end']:]
+            open(pth, 'w').write(src)
+            applied.append(target)
+            done = True
+            break
+        if not done:
+            skipped.append(target)
+    return applied, skipped
+
+
+def playback(xt_dir, hdir, harness, harness_file, timeout=900, harness_modpath=None, harness_src_rel=None):
     """Concrete playback of a failing harness: returns dict(test_src, reproduced, panic, output)."""
     env = dict(os.environ, CARGO_NET_OFFLINE='true')
     cmd = ['cargo', 'kani', '-Z', 'function-contracts', '-Z', 'stubbing', '-Z', 'concrete-playback',
@@ -162,7 +265,16 @@ def playback(xt_dir, hdir, harness, harness_file, timeout=900):
     hf = os.path.join(hdir, harness_file)
     with open(hf, 'a') as f:
         f.write('\n' + test_src + '\n')
-    return run_playback_test(xt_dir, test_name, test_src, timeout)
+    applied, skipped = [], []
+    if harness_src_rel is not None:
+        try:
+            applied, skipped = apply_local_stubs(xt_dir, hdir, harness_file, harness.split('::')[-1], harness_modpath or '', harness_src_rel)
+        except Exception as e:  # replay fidelity only; never fatal
+            skipped = ['(stub application failed: %s)' % e]
+    res = run_playback_test(xt_dir, test_name, test_src, timeout)
+    res['stubs_applied_natively'] = applied
+    res['stubs_not_applied'] = skipped
+    return res
 
 
 def run_playback_test(xt_dir, test_name, test_src, timeout=900):
